@@ -962,17 +962,39 @@ def c18f(prog, rep):
             clos = b.locals[c.args[1]["place"]["l"]].get("closure")
             cb = prog.body(norm(clos)) if clos else None
             if cb is not None:
-                # the closure returns None only under formattable_file_path(..) == false
-                ff = cb.calls_to("pasfmt_orchestrator::file_formatter::formattable_file_path")
-                nones = [bb for bb, i, s2 in cb.stmts() if s2["k"] == "assign" and s2["dst"]["l"] == 0 and not s2["dst"]["p"] and s2["rv"]["k"] == "aggregate" and s2["rv"].get("variant") == "None"]
-                from panic import dominating_conditions
-                ok = len(ff) == 1 and bool(nones)
-                for nb in nones:
-                    conds = dominating_conditions(cb, nb)
-                    ok &= any(cd[0] == "call" and cd[1].endswith("formattable_file_path") and cd[3] is False for cd in conds)
+                # decision table of the closure: an entry is dropped (None) only because it is not a formattable file — its name has no
+                # recognised extension, or it is a directory (a directory can be named like a source file); errors are passed on
+                from table import Table, TooComplex, render
+                try:
+                    tb = Table(prog, cb, inline=0)
+                except TooComplex:
+                    tb = None
+                ok = tb is not None and len(tb.rows) >= 3
+                for cons, res in (tb.rows if tb else []):
+                    r = render(res)
+                    cd = {str(x[1]): x[2] for x in cons if x[0] == "cond"}
+                    fmt = [v for k2, v in cd.items() if k2.startswith("formattable_file_path(")]
+                    isdir = [(k2.startswith("!"), v) for k2, v in cd.items() if re.match(r"^!?is_dir\(", k2)]
+                    a_dir = bool(isdir) and ((isdir[0][1] != 0) != isdir[0][0])
+                    if r == "None":
+                        ok &= (bool(fmt) and fmt[0] == 0) or a_dir
+                    elif r.startswith("Some(") and any(x[0] == "is" and x[2] == "Err" for x in cons):
+                        pass                        # a walk error is passed on
+                    elif r.startswith("Some(") and any(x[0] == "is" and x[2] == "Ok" for x in cons):
+                        ok &= bool(fmt) and fmt[0] != 0
+                        # C18.h — what the walk hands to the workers is a file: a directory whose NAME has a recognised extension is not a
+                        # failing file (the exit status is non-zero iff a FILE failed)
+                        isfile = [(k2.startswith("!"), v) for k2, v in cd.items() if re.match(r"^!?is_file\(", k2)]
+                        a_file = (bool(isdir) and not a_dir) or (bool(isfile) and ((isfile[0][1] != 0) != isfile[0][0]))
+                        rep.check(a_file, "C18.h", "walked-entries-are-files:%s" % short(b.npath),
+                                  "the directory walk of expand_paths hands every entry with a recognised extension to the workers without asking whether it is a directory: a directory "
+                                  "named `x.pas` is opened as a file, fails (`Is a directory`) and makes the exit status non-zero although no file failed", where=c.where(),
+                                  instance={"row": [str(x[1])[:60] for x in cons if x[0] == "cond"]})
+                    else:
+                        ok = False
         m += 1 if ok else 0
         rep.check(ok, R, "dropping-adaptor:%s:%s" % (short(b.npath), nm), "expand_paths can drop an entry through `%s` for a reason other than `not a formattable file`" % nm, where=c.where(),
-                  instance={"adaptor": nm, "reason": "formattable_file_path(entry) == false"})
+                  instance={"adaptor": nm, "reason": "formattable_file_path(entry) == false, or the entry is a directory"})
     rep.floor(R, "reviewed dropping adaptors in expand_paths (the directory-walk filter)", m, 1)
 
 
